@@ -63,6 +63,13 @@ Example c10_load_panic_debug_refuted :
   load_status (load true 0 0 b) = LPanic /\ load_status (load false 0 0 b) = LErr.
 Proof. vm_compute. split; reflexivity. Qed.
 
+(** What does bound the loader's largest allocation request, for every file (of bytes), both
+    profiles, any clocks and initial databases: the largest length the 32-bit form can declare. *)
+Theorem c10_alloc_below_4gib :
+  forall chk now wall ds0 b, Forall (fun c => 0 <= c < 256) b ->
+  load_resv (load_from chk now wall ds0 b) < two32.
+Proof. exact load_resv_below_4gib. Qed.
+
 (** The allocation bound [reserved <= k * |file|] is refuted for every reasonable k:
     read_string allocates the declared length before reading (rdb.rs:1016-1021); an 18-byte
     file makes the loader ask for 256 MiB.  Class rdb-alloc (DESIGN F-10b). *)
